@@ -23,7 +23,7 @@ CHECKS = {
 
 KERNEL = {
     'C08': {
-        'text': "bounded symbolic execution of the real TieredInterval/TieredTime operators, update_min and min: tier values are unbounded symbolic integers, every branch and every obligation (trichotomy and converse agreement on semantically comparable pairs, transitivity, 'a<b => never later for any departure time', monotone addition, associativity, action law) is decided by z3 for every shape up to 3 (quick) / 4 (thorough) tiers; counterexamples are replayed with plain ints",
+        'text': "bounded symbolic execution of the real TieredInterval/TieredTime operators, update_min and min: tier values are unbounded symbolic integers, every branch and every obligation (trichotomy and converse agreement on semantically comparable pairs, transitivity, 'a<b => never later for any departure time', monotone addition, associativity, action law) is decided by z3 for every shape up to 3 (quick) / 5 (thorough; triples and associativity 4) tiers; counterexamples are replayed with plain ints",
         'ref': 'DESIGN.md section 5 C08',
         'note': 'bounded in the number of tiers (group nesting depth), unbounded in tier values >= 0; trusts CPython tuple comparison / total_ordering / dataclass eq (executed, not modelled) and z3',
         'tech': 'symbolic execution of the real Python code with z3 (own executor), QF_LIA obligations; thorough tier adds CrossHair (independent symbolic executor) on O1/O3 per shape pair',
@@ -33,13 +33,13 @@ KERNEL = {
 KERNEL['C12'] = {
     'text': 'bounded symbolic execution of the real parse_attrs / parse_set_triple / OutSet operators with every attribute list an arbitrary subset of a small universe (bit-vector set model bound to the name frozenset): for every simulator type x any_inputs x presence pattern of the five keys, z3 decides rejected <=> the docstring rule rejects, the four result sets equal the rule, the partitions hold and explicitly given lists are returned unchanged; the set algebra is decided per operator and operand kind including a generic foreign element',
     'ref': 'DESIGN.md section 5 C12',
-    'note': 'universe of 4 (quick) / 6 (thorough) attribute names: all subsets at once; lists modelled as sets (no duplicates); frozenset replaced by a model with the same protocol, OutSet and parse code executed for real; concrete replay on real frozensets',
+    'note': 'universe of 4 (quick) / 8 (thorough) attribute names: all subsets at once; lists modelled as sets (no duplicates); frozenset replaced by a model with the same protocol, OutSet and parse code executed for real; concrete replay on real frozensets',
     'tech': 'symbolic execution of the real Python code with z3 (own executor), QF_BV set model',
 }
 KERNEL['C18'] = {
     'text': 'bounded symbolic execution of the real connect_randomly / connect_many_to_one with a solver-driven RNG: every randint outcome and every shuffle permutation is explored, max_connects is an unbounded symbolic int; z3 decides each-source-once, evenness, max_connects, returned set and absence of exceptions on every path',
     'ref': 'DESIGN.md section 5 C18',
-    'note': 'set sizes <= 4x3 (quick) / 6x4 (thorough); World.connect is a recorder; mosaik.util.random replaced by the solver-driven source, so every seed is covered; precondition |src| <= |dest|*max_connects assumed',
+    'note': 'set sizes <= 4x3 (quick) / 7x4 (thorough); World.connect is a recorder; mosaik.util.random replaced by the solver-driven source, so every seed is covered; precondition |src| <= |dest|*max_connects assumed',
     'tech': 'symbolic execution of the real Python code with z3 (own executor), RNG as symbolic/choice variables',
 }
 KERNEL['C06'] = {
@@ -70,7 +70,7 @@ KERNEL['C13'] = {
 KERNEL['C09'] = {
     'text': 'system runs of weak loops (2- and 3-simulator loops, nested group so the loop tier is deeper, loop plus observer) with max_loop_iterations = M an unbounded symbolic int: on every path no simulator performs a sub-step with index >= M, a loop that demands more makes run() raise a SimulationError naming a simulator that exceeded the bound, a loop that settles is never interrupted and no demanded step is lost (reference demand bookkeeping)',
     'ref': 'DESIGN.md section 5 C09',
-    'note': 'loop participants are event-based without self-steps (one hybrid variant), K <= 4-5 sub-steps per simulator, until=2; all reply orders (D=0)',
+    'note': 'loop participants are event-based without self-steps (one hybrid variant), K <= 4 (quick) / 6 (thorough) sub-steps per simulator, until=2; all reply orders (D=0)',
     'tech': SYS_TECH,
 }
 
